@@ -311,4 +311,88 @@ def restore (net : Net σ ε) (inputs : List ε) (σ0 : Nat → σ) (parts : Lis
                  | some sn => sn.eng
                  | none => σ0 c)
 
+/-! ## stream programs: which context consumes what
+
+`SDecl` is one `stream name = src .context(ctx) …` declaration (single upstream). The routing table
+mirrors `ContextOrchestrator::build_with_checkpoint` (ingress routing passes 1 and 2): a type — raw
+event type or stream name — is routed to the context of the *last* stream in program order that
+consumes it from another context than the one producing it; a consumer in the producer's own
+context is fed inside that context's engine. One context per type. -/
+
+structure SDecl (κ : Type) where
+  name : κ
+  src : κ
+  ctx : Nat
+  deriving Repr
+
+section routing
+variable {κ : Type} [DecidableEq κ]
+
+/-- context of the stream producing this type (`none` for raw event types) -/
+def ownerOf (streams : List (SDecl κ)) (t : κ) : Option Nat :=
+  (streams.find? (fun s => s.name = t)).map (·.ctx)
+
+/-- `ingress_routing` -/
+def routeTy (streams : List (SDecl κ)) (t : κ) : Option Nat :=
+  ((streams.filter (fun s => s.src = t ∧ ownerOf streams t ≠ some s.ctx)).getLast?).map (·.ctx)
+
+/-- the stream never sees an event: its source type is neither produced in its own context nor
+routed to it (guard of finding `C26-one-context-per-type`) -/
+def starved (streams : List (SDecl κ)) (s : SDecl κ) : Bool :=
+  ownerOf streams s.src ≠ some s.ctx ∧ routeTy streams s.src ≠ some s.ctx
+
+/-- the given streams and everything downstream of them -/
+def downstream (streams : List (SDecl κ)) (seed : List κ) : List κ :=
+  (List.range streams.length).foldl (fun acc _ =>
+    acc ++ ((streams.filter (fun s => s.src ∈ acc ∧ s.name ∉ acc)).map (·.name))) seed
+
+end routing
+
+/-- a single-upstream stream as a sequential transducer (`.where/.emit`, count windows, …) -/
+structure SFun (τ ε : Type) where
+  init : τ
+  step : τ → ε → τ × List ε
+
+def SFun.run {τ : Type} (f : SFun τ ε) : τ → List ε → List ε
+  | _, [] => []
+  | t, x :: xs => (f.step t x).2 ++ SFun.run f (f.step t x).1 xs
+
+/-- everything the stream emits when it is handed `xs`, in order -/
+def SFun.outs {τ : Type} (f : SFun τ ε) (xs : List ε) : List ε := f.run f.init xs
+
+/-- a program: event typing, stream declarations (types are numbers), the transducer of each stream -/
+structure Prog (τ ε : Type) where
+  ty : ε → Nat
+  streams : List (SDecl Nat)
+  fn : Nat → SFun τ ε
+
+/-- `O` assigns to every type the sequence of its events. The meaning of a single-upstream program
+on `inputs`, independent of contexts and schedules: a raw type carries the inputs of that type, a
+stream carries what its transducer emits on the sequence of its source type. -/
+def Kahn {τ : Type} (P : Prog τ ε) (inputs : List ε) (O : Nat → List ε) : Prop :=
+  (∀ t, (∀ s ∈ P.streams, s.name ≠ t) → O t = inputs.filter (fun e => P.ty e = t)) ∧
+  (∀ s ∈ P.streams, O s.name = (P.fn s.name).outs (O s.src))
+
+/-- engine state of context `c` after it processed `xs` -/
+def engSt (net : Net σ ε) (c : Nat) (s0 : σ) (xs : List ε) : σ :=
+  xs.foldl (fun st x => (net.proc c st x).1) s0
+
+/-- everything the engine of context `c` emitted while processing `xs`, in order -/
+def engRun (net : Net σ ε) (c : Nat) : σ → List ε → List ε
+  | _, [] => []
+  | st, x :: xs => (net.proc c st x).2 ++ engRun net c (net.proc c st x).1 xs
+
+/-- What the network theorem needs from the engine of context `c` (M-ENGINE's business): fed any
+sequence `X`, it emits only events of its own streams, and each of its streams emits what its
+transducer yields on the stream's source sequence — taken from the engine's own emissions when the
+source is a stream of the same context, from `X` otherwise. -/
+def EngineOK {τ : Type} (P : Prog τ ε) (net : Net σ ε) (s0 : σ) (c : Nat) : Prop :=
+  ∀ X : List ε,
+    (∀ o ∈ engRun net c s0 X, ∃ s ∈ P.streams, s.ctx = c ∧ P.ty o = s.name) ∧
+    ∀ s ∈ P.streams, s.ctx = c →
+      (engRun net c s0 X).filter (fun e => P.ty e = s.name) =
+        (P.fn s.name).outs
+          (if ownerOf P.streams s.src = some c then (engRun net c s0 X).filter (fun e => P.ty e = s.src)
+           else X.filter (fun e => P.ty e = s.src))
+
 end Varpulis.Ctx
